@@ -607,21 +607,22 @@ pub fn run(prop: &'static str, tier: &str) -> i32 {
     // ---- engine B closures: (protocol, flavor, keys)
     let mut plan: Vec<(Proto, Flavor, usize)> = Vec::new();
     if quick {
-        plan.push((Proto::V4L, Flavor::Generic, 2));
-        plan.push((Proto::V4L, Flavor::PreludeNew, 2));
-        plan.push((Proto::V4L, Flavor::PreludeDefault, 3));
-        for p in [Proto::V1L, Proto::V2L, Proto::V3L, Proto::V2P, Proto::V4P] {
+        plan.push((Proto::workhorse(), Flavor::Generic, 2));
+        plan.push((Proto::workhorse(), Flavor::PreludeNew, 2));
+        plan.push((Proto::workhorse(), Flavor::PreludeDefault, 3));
+        for p in [Proto::V1L, Proto::V2L, Proto::V3L, Proto::V2P, Proto::V4P].into_iter().filter(|p| p.enabled() && *p != Proto::workhorse()) {
             plan.push((p, Flavor::Generic, 1));
             plan.push((p, Flavor::PreludeDefault, 1));
         }
-        plan.push((Proto::V1P, Flavor::Generic, 1));
-        plan.push((Proto::V3P, Flavor::Generic, 1));
+        for p in [Proto::V1P, Proto::V3P].into_iter().filter(|p| p.enabled() && *p != Proto::workhorse()) {
+            plan.push((p, Flavor::Generic, 1));
+        }
     } else {
         for f in [Flavor::Generic, Flavor::PreludeNew, Flavor::PreludeDefault] {
-            plan.push((Proto::V4L, f, 3));
+            plan.push((Proto::workhorse(), f, 3));
         }
         for p in Proto::ALL {
-            if p != Proto::V4L {
+            if p != Proto::workhorse() {
                 let slow = matches!(p, Proto::V1P | Proto::V3P);
                 for f in [Flavor::Generic, Flavor::PreludeNew, Flavor::PreludeDefault] {
                     plan.push((p, f, if slow { 1 } else { 2 }));
@@ -665,7 +666,7 @@ pub fn run(prop: &'static str, tier: &str) -> i32 {
             let mut acc = Acc::default();
             adapter::freeze_default_clock();
             config_around_footer(prop, *p, &mut acc);
-            if matches!(p, Proto::V4L | Proto::V2P) {
+            if *p == Proto::workhorse() || *p == Proto::V2P {
                 many_registrations(prop, *p, quick, &mut acc);
             }
             error_variants_and_odd_keys(prop, *p, &mut acc);
@@ -681,15 +682,15 @@ pub fn run(prop: &'static str, tier: &str) -> i32 {
         let depth = if quick { 2 } else { 3 };
         let mut units: Vec<(Flavor, usize)> = Vec::new();
         for f in [Flavor::Generic, Flavor::PreludeNew, Flavor::PreludeDefault] {
-            let m = ParserModel { proto: Proto::V4L, flavor: f, nkeys: 3, pool: Arc::new(build_pool(Proto::V4L, 3)) };
+            let m = ParserModel { proto: Proto::workhorse(), flavor: f, nkeys: 3, pool: Arc::new(build_pool(Proto::workhorse(), 3)) };
             for first in 0..m.alphabet().len() {
                 units.push((f, first));
             }
         }
-        let pool = Arc::new(build_pool(Proto::V4L, 3));
+        let pool = Arc::new(build_pool(Proto::workhorse(), 3));
         let accs = par_units(&units, |(f, first)| {
             let mut acc = Acc::default();
-            let m = ParserModel { proto: Proto::V4L, flavor: *f, nkeys: 3, pool: pool.clone() };
+            let m = ParserModel { proto: Proto::workhorse(), flavor: *f, nkeys: 3, pool: pool.clone() };
             let alphabet = m.alphabet();
             for len in 1..=depth {
                 let (_, pts) = explore(None, |c| {
@@ -697,10 +698,10 @@ pub fn run(prop: &'static str, tier: &str) -> i32 {
                     for _ in 1..len {
                         path.push(alphabet[c.choose("configuration call", alphabet.len())].clone());
                     }
-                    let v = replay_and_judge(Proto::V4L, *f, 3, &path, &pool);
+                    let v = replay_and_judge(Proto::workhorse(), *f, 3, &path, &pool);
                     acc.see(&(*f as usize, &path));
                     acc.bump(if pick(prop, &v).is_some() { "sequence:disagrees" } else { "sequence:conforms" });
-                    record(prop, Proto::V4L, *f, 3, &path, &v, &mut acc);
+                    record(prop, Proto::workhorse(), *f, 3, &path, &v, &mut acc);
                 });
                 acc.choice_points += pts;
             }
@@ -723,11 +724,11 @@ pub fn run(prop: &'static str, tier: &str) -> i32 {
         let mut units: Vec<(Proto, Flavor, usize)> = Vec::new();
         for f in [Flavor::Generic, Flavor::PreludeNew, Flavor::PreludeDefault] {
             for e0 in 0..5 {
-                units.push((Proto::V4L, f, e0));
+                units.push((Proto::workhorse(), f, e0));
             }
         }
         if !quick {
-            for p in [Proto::V1L, Proto::V2L, Proto::V3L, Proto::V2P, Proto::V4P] {
+            for p in [Proto::V1L, Proto::V2L, Proto::V3L, Proto::V2P, Proto::V4P].into_iter().filter(|p| p.enabled() && *p != Proto::workhorse()) {
                 for e0 in 0..5 {
                     units.push((p, Flavor::Generic, e0));
                 }
@@ -735,7 +736,7 @@ pub fn run(prop: &'static str, tier: &str) -> i32 {
         }
         let accs = par_units(&units, |(p, f, e0)| {
             let mut acc = Acc::default();
-            product_unit(prop, *p, *f, *e0, quick || *p != Proto::V4L, &mut acc);
+            product_unit(prop, *p, *f, *e0, quick || *p != Proto::workhorse(), &mut acc);
             acc
         });
         all.merge(Acc::merge_all(accs));
